@@ -22,6 +22,7 @@ BUILDS = {"quick": [("dev", ("full",)), ("release", ("full",)), ("release", ("fu
           "thorough": [("dev", ("full",)), ("release", ("full",)), ("release", ("full", "packed")),
                        ("dev", ("full", "packed")), ("o0-nochk", ("full",))]}
 MODE_INDEPENDENT = True      # half of every batch runs under a non-default thread rounding mode
+ASSUMPTIONS = [C.GRID_NOTE]
 REQUIRED_SITES = {"cmp.lhs_ovf": 200, "cmp.rhs_ovf": 200}
 BUDGET = {"quick": 20, "thorough": 300}
 N_RANDOM = {"quick": 6000, "thorough": 30000}
@@ -225,6 +226,8 @@ def gen(rng, tier, shard, batch):
         if _CON is None:
             _CON = constructed(random.Random(20260108))
         reqs += _CON[shard::E.NCPU]
+        for a, p, b, q in C.small_grid(tier, shard, E.NCPU):
+            reqs.append("cmpall vv %s %s" % (G.fD(a, p), G.fD(b, q)))
     reqs += live_structures(rng, 150 if tier == "quick" else 600)
     for _ in range(N_RANDOM[tier]):
         k = rng.random()
